@@ -176,7 +176,9 @@ func (rt *runtime) newError(name string, message Value, stackFramesToPop int) *o
 
 	obj := rt.newErrorObject(name, message, stackFramesToPop)
 	obj.prototype = rt.global.ErrorPrototype
-	if name != "" {
+	// A plain Error inherits its name from Error.prototype (ES5 15.11.5: instances have no
+	// special properties); only custom error names need an own property.
+	if name != "" && name != classErrorName {
 		obj.defineProperty("name", stringValue(name), 0o111, false)
 	}
 	return obj
